@@ -14,6 +14,12 @@ package main
 //                      delayed by <ms> (a legal schedule: the OS may preempt it there);
 //   stall=every:n:ms   every n-th rotation is delayed by <ms> right after marking the log
 //                      (writers run out of attempts: ErrWALRotating);
+//   stall=window:ms:n  the first n rotations are delayed by <ms> at rotate.new_wal (new log file created and the
+//                      sequence counter handed over, pointer not yet swapped) and by <ms>/4 at rotate.swapped,
+//                      while clients keep writing the same few keys into ONE memtable (large memsize, rotation
+//                      comes from the FlushImMemTables goroutines). On the correct code the old log is already
+//                      marked: those writes fail with ErrWALRotating. If they were still stamped by the old log
+//                      the new log would re-issue their numbers and a later write would lose against an earlier one;
 //   stall=closed       a writer that has loaded the log pointer (site mgr.*.wal_loaded) and sees a
 //                      rotation start waits until that rotation has closed the old log: its Append
 //                      meets a closed log (ErrWALClosed, not retried).
@@ -127,7 +133,7 @@ func (r *c06Run) doOp(tid int, l []string, rec *[]*hop) {
 }
 
 type stallCfg struct {
-	mode   string // none flip every closed
+	mode   string // none flip every closed window
 	marked atomic.Int64
 	closed atomic.Int64
 	n     int
@@ -146,6 +152,9 @@ func parseStall(s string) *stallCfg {
 	case "every":
 		sc.n, _ = strconv.Atoi(p[1])
 		sc.ms, _ = strconv.Atoi(p[2])
+	case "window":
+		sc.ms, _ = strconv.Atoi(p[1])
+		sc.n, _ = strconv.Atoi(p[2])
 	case "closed":
 	default:
 		sc.mode = "none"
@@ -183,6 +192,15 @@ func (sc *stallCfg) install() {
 						sc.fired.Add(1)
 					}
 				}
+			}
+		case "rotate.new_wal":
+			if sc.mode == "window" && sc.count.Add(1) <= int64(sc.n) {
+				sc.fired.Add(1)
+				time.Sleep(time.Duration(sc.ms) * time.Millisecond)
+			}
+		case "rotate.swapped":
+			if sc.mode == "window" && sc.count.Load() <= int64(sc.n) {
+				time.Sleep(time.Duration(sc.ms) * time.Millisecond / 4)
 			}
 		case "rotate.closed":
 			sc.closed.Add(1)
@@ -763,7 +781,16 @@ func genC06(w *bufio.Writer, seed int64, n int, tier string) {
 		}
 		memsize := []int{64, 96, 160, 256, 512}[r.Intn(5)]
 		stall := "none"
-		switch pick(r, 5, 2, 2, 3) {
+		flushers := r.Intn(3)
+		switch pick(r, 5, 2, 2, 3, 3) {
+		case 4:
+			// writes into one memtable across delayed rotations
+			stall = fmt.Sprintf("window:%d:%d", 30+r.Intn(31), 3+r.Intn(4))
+			memsize = []int{4096, 16384}[r.Intn(2)]
+			flushers = 1 + r.Intn(2)
+			if nkeys > 3 {
+				nkeys = 3
+			}
 		case 1:
 			stall = fmt.Sprintf("flip:%d", 40+r.Intn(15))
 		case 2:
@@ -783,7 +810,7 @@ func genC06(w *bufio.Writer, seed int64, n int, tier string) {
 			oneShot = 25
 		}
 		fmt.Fprintf(w, "case c06-%d-%d threads=%d memsize=%d yield=%d flushers=%d compactors=%d stall=%s sync=%s reopen=%d\n",
-			seed, ci, threads, memsize, 1+r.Int63n(1<<40), r.Intn(3), r.Intn(2), stall, syncMode, reopen)
+			seed, ci, threads, memsize, 1+r.Int63n(1<<40), flushers, r.Intn(2), stall, syncMode, reopen)
 		ctr := make([]int, threads+1)
 		// a thread either mixes everything or is mostly a reader / mostly a writer
 		style := make([]int, threads+1)
